@@ -144,9 +144,9 @@ func (b *scriptedBackend) set(sc c10Script) {
 	b.mu.Unlock()
 }
 
-func (b *scriptedBackend) replies(desc protoreflect.MessageDescriptor) []proto.Message {
+func (b *scriptedBackend) replies(desc protoreflect.MessageDescriptor, k int) []proto.Message {
 	var out []proto.Message
-	for i := 0; i < b.sc.K; i++ {
+	for i := 0; i < k; i++ {
 		m := dynamicpb.NewMessage(desc)
 		m.Set(desc.Fields().ByName("b"), protoreflect.ValueOfBytes([]byte(fmt.Sprintf("reply-%d", i))))
 		out = append(out, m)
@@ -163,7 +163,7 @@ func (b *scriptedBackend) Unary(c *dyn.Call) (proto.Message, error) {
 	if b.sc.Code != codes.OK {
 		return nil, c10Status(b.sc).Err()
 	}
-	rs := b.replies(c.Desc.Output())
+	rs := b.replies(c.Desc.Output(), b.sc.K)
 	if len(rs) > 0 {
 		return rs[0], nil
 	}
@@ -176,7 +176,7 @@ func (b *scriptedBackend) Stream(c *dyn.Call) error {
 	b.calls++
 	b.md, _ = metadata.FromIncomingContext(c.Stream.Context())
 	b.mu.Unlock()
-	rs := b.replies(c.Desc.Output())
+	rs := b.replies(c.Desc.Output(), sc.K) // the script as it was when the call arrived (a call the client abandoned may outlive it)
 	reads, sent := 0, 0
 	for {
 		if !sc.ReadAll && reads >= sc.R {
